@@ -11,15 +11,23 @@ T_win == <<105,110,100,101,120,61,119,105,110,32,40>>                   \* "inde
 T_def == <<105,110,100,101,120,61,100,101,102,97,117,108,116,32,40>>    \* "index=default ("
 T_mark == <<119,95,109,97,112,112,101,100,65>>                          \* "w_mappedA"
 T_map == <<109,97,112,112,101,100,65>>                                  \* "mappedA"
+T_srcwin == <<115,114,99,61,34,119,105,110,100,111,119,115,34>>             \* src="windows"
+T_srclin == <<115,114,99,61,34,108,105,110,117,120,34>>                     \* src="linux"
 Abstract(q) == <<IF HasPrefix(q, T_win) THEN "win" ELSE IF HasPrefix(q, T_def) THEN "default" ELSE "?",
                  IsSubstr(T_mark, q)>>
 Clause(o) ==
-    IF ~o.fresh.ok THEN "FreshReferenceFailed"
+    IF ~o.fresh.ok THEN      \* the fresh conversion fails (strict mapping check): so must the probe, the same way
+        (IF ~o.fresh.sigma \/ ~o.direct THEN "FreshReferenceFailed"
+         ELSE IF o.got.ok THEN "HistoryFree:probe-converts"
+         ELSE IF o.got.exc # o.fresh.exc THEN "HistoryFree:other-error"
+         ELSE IF FreshResult(2, o.probe[1], "direct")[4] # TRUE THEN "AbstractResultAsModel" ELSE "")
     ELSE IF ~o.got.ok THEN (IF o.got.sigma THEN "HistoryFree:probe-fails" ELSE "NonSigmaException")
     ELSE IF o.got.out # o.fresh.out THEN "HistoryFree"
     ELSE IF o.errors_delta # 0 THEN "HistoryFree:errors"
     ELSE LET want == FreshResult(2, o.probe[1], IF o.windows THEN "win" ELSE "lin")
-         IN  IF \E i \in 1..Len(o.got.out) : Abstract(o.got.out[i]) # <<want[2], want[3]>> \/ ~IsSubstr(T_map, o.got.out[i])
+             src == IF want[5] = "win" THEN T_srcwin ELSE T_srclin
+         IN  IF want[4] \/ \E i \in 1..Len(o.got.out) :
+                    Abstract(o.got.out[i]) # <<want[2], want[3]>> \/ ~IsSubstr(T_map, o.got.out[i]) \/ ~IsSubstr(src, o.got.out[i])
              THEN "AbstractResultAsModel" ELSE ""
 Verdict(o) == LET c == Clause(o) IN [id |-> o.id, v |-> IF c = "" THEN "ok" ELSE "violation:" \o c]
 ASSUME ndJsonSerialize(IOEnv.VERIF_OUT, [i \in 1..Len(Obs) |-> Verdict(Obs[i])])
